@@ -183,7 +183,14 @@ theorem allocIngestIter_inv {s : Sys} (h : SInv s) (now : Time) (oid : Oid) (tl 
           ⟨ha.pw.spawn _ _, ⟨Ua, hUa.spawnPI oid _ now hbegun hno⟩,
             ha.dg.addProcs rfl rfl rfl rfl _ (spawn_procs _ _ _) (by simp [PK.isDW]),
             ha.eg.addProcs rfl rfl _ (spawn_procs _ _ _) (by simp [PK.isTel, PK.isAI])⟩
-        have hc := hb.pres (Pres.spawn _ (.ingestStream oid 0) now ⟨rfl, rfl, rfl, rfl, rfl⟩)
+        obtain ⟨Ub, hUb⟩ := hb.ci
+        have hc : SInv ((((s.updObs oid (fun r => { r with status := .running })).spawn
+            (.provIngest oid o.ingestDemand) now).1).spawn (.ingestStream oid 0) now).1 :=
+          ⟨hb.pw.spawn _ _,
+            ⟨Ub, hUb.addProcs (ClQuiet.refl _) (TaskMono.refl _) (fun _ h => h) _ (spawn_procs _ _ _)
+              (by simp [PK.isAT, PK.isPI])⟩,
+            hb.dg.addProcs rfl rfl rfl rfl _ (spawn_procs _ _ _) (by simp [PK.isDW]),
+            hb.eg.addProcs rfl rfl _ (spawn_procs _ _ _) (by simp [PK.isTel, PK.isAI])⟩
         refine ⟨hc, ?_, ⟨tl, rfl⟩, ?_⟩
         · simp
         · intro ob hob'
